@@ -193,7 +193,7 @@ def run_c06(prop, tier):
     t0 = time.time()
     q = tier == "quick"
     exe = schedmc_exe()
-    n0, bound = (72, 64) if q else (240, 64)
+    n0, bound = (96, 96) if q else (240, 96)
     jobs = []
     for script, n, arena in (("stop_isready", n0, 1), ("isready_stop", n0, 1), ("depth2_stop", min(n0, 120), 1), ("depth3_isready_stop", n0, 1),
                              ("stop_isready", n0, 2), ("isready_stop", n0 // 2, 2)):
@@ -216,7 +216,7 @@ def run_c06(prop, tier):
                          rule="every schedule (a <= b <= N0) of the reader thread's two commands among the search thread's first N0 hook steps, 4 scripts: exactly one bestmove, "
                               "at most B search-thread steps between the return of `stop` and `bestmove`, `readyok` printed while the search thread is parked anywhere; "
                               "plus a free-running ThreadSanitizer pass of the real binary (race reports naming engine code are violations)",
-                         assumptions=["scheduling points = the VERIF_POINT hooks (thread start, go() start-up, every iteration start, every node visit, EVERY read and write of the stop flag, before bestmove); between points a thread runs alone",
+                         assumptions=["scheduling points = the VERIF_POINT hooks (thread start, go() start-up, every iteration start, every node visit, EVERY read and write of the stop flag, EVERY write to std::cout, before bestmove); between points a thread runs alone",
                                       "memory-model effects are not explored by the serialising scheduler; races are looked for by the separate TSan pass (sampling of timings, the only non-enumerative element)",
                                       "promptness is measured in search-thread steps, not in wall time"],
                          guards=[("tsan_free_running_runs", 4), ("_outcomes", 3)],
